@@ -45,8 +45,9 @@ def run(ctx):
     ]
     return ctx.finish(
         rule="plans = TLC simulation of MuxCache.tla (3 keys, 1..3 workers, map/LRU, 16 operations with "
-             "failure and gate patterns, distinct by content) + seeded random plans (1..6 keys, 7 key "
-             "types incl. extreme hash values, workers 1,2,3,5,8,127, queue depth 1,2,4,8192, LRU "
+             "failure and gate patterns incl. a gate before the handler's cache Set/Delete, distinct by content) + "
+             "seeded random plans (1..6 keys, 11 key schemes incl. extreme hash values and schemes in which "
+             "distinct keys have equal HashedInt(): mixed wrapper types, CRC-32 collisions, constant hash; workers 1,2,3,5,8,127, queue depth 1,2,4,8192, LRU "
              "capacity 1..100, sized values, built-in and instrumented facades) + free-running stress "
              "histories of 2..6 callers; a trace is one worker group's lifetime",
         explanation="every store call (begin/end, arguments, result), cache Set/Delete, submission, "
